@@ -198,4 +198,126 @@ example :
     (Rep.chain [.array [.int 1], .array [.int 2, .int 3], .array [.int 4], .count] [1, 3, 4]).get 6 = .ok (.int 2) :=
   ⟨rfl, rfl⟩
 
+/-! ### copying updates equal the list operations -/
+
+/-- `push`, `rpush` and `to_array` copy exactly the elements of the denoted list (in order) and add the new
+element at the end / at the front / nowhere; an infinite sequence is an error value -/
+theorem push_rpush_toArray_list (r : Rep) (h : r.wf) (x : Val) :
+    (∀ n, (den r).len = some n →
+      pushB r x = listResult (tupAll (elemsFrom (den r) 0 n)) (fun vs => vs ++ [x]) ∧
+      rpushB r x = listResult (tupAll (elemsFrom (den r) 0 n)) (fun vs => x :: vs) ∧
+      toArrayB r = listResult (tupAll (elemsFrom (den r) 0 n)) (fun vs => vs)) ∧
+    ((den r).len = none → pushB r x = infErr ∧ rpushB r x = infErr ∧ toArrayB r = infErr) := by
+  refine ⟨fun n hn => ?_, fun hn => ?_⟩
+  · have hl : r.len = .fin n := by rw [len_den r h, hn]; rfl
+    have hc := collect_den r h n hn
+    refine ⟨?_, ?_, ?_⟩
+    · simp only [pushB, hl, hc, liftList_eq]
+    · simp only [rpushB, hl, hc, liftList_eq]
+    · cases r with
+      | array xs =>
+        have hx : n = xs.length := by simp [den] at hn; exact hn.symm
+        subst hx
+        have := array_elems xs []
+        simp only [List.nil_append, List.length_nil] at this
+        simp only [toArrayB, this, listResult, Rep.mkArray]
+        simp only [Rep.wf] at h
+        have : xs.isEmpty = false := by cases xs <;> simp_all
+        simp [this]
+      | empty => simp only [toArrayB, hl, hc, liftList_eq]
+      | range a b c => simp only [toArrayB, hl, hc, liftList_eq]
+      | map a f => simp only [toArrayB, hl, hc, liftList_eq]
+      | mapGet a b g => simp only [toArrayB, hl, hc, liftList_eq]
+      | zip rs => simp only [toArrayB, hl, hc, liftList_eq]
+      | chain ps ms => simp only [toArrayB, hl, hc, liftList_eq]
+      | slice a b c => simp only [toArrayB, hl, hc, liftList_eq]
+      | count => simp only [toArrayB, hl, hc, liftList_eq]
+  · have hl : r.len = .inf := by rw [len_den r h, hn]; rfl
+    refine ⟨by simp only [pushB, hl], by simp only [rpushB, hl], ?_⟩
+    cases r with
+    | array xs => simp [den] at hn
+    | empty => simp only [toArrayB, hl]
+    | range a b c => simp only [toArrayB, hl]
+    | map a f => simp only [toArrayB, hl]
+    | mapGet a b g => simp only [toArrayB, hl]
+    | zip rs => simp only [toArrayB, hl]
+    | chain ps ms => simp only [toArrayB, hl]
+    | slice a b c => simp only [toArrayB, hl]
+    | count => simp only [toArrayB, hl]
+
+
+/-- `pop`, `set` and `insert` on a finite sequence of length `n`: the index is normalised (`insert` also accepts
+`n`), an out-of-range index is an error value, and otherwise the result is built from the elements before the
+position and the elements after it (from it, for `insert`) of the denoted list -/
+theorem pop_set_insert_list (r : Rep) (h : r.wf) (n : Nat) (hn : (den r).len = some n) (i : Int) (x : Val) :
+    popB r i = (match valueToIdx (.fin n) i with
+      | .ok idx => if n = 1 then .seq .empty else
+          listResult2 (tupAll (elemsFrom (den r) 0 idx)) (tupAll (elemsFrom (den r) (idx + 1) (n - (idx + 1))))
+            (fun pre post => pre ++ post)
+      | .err m => .err m
+      | .panic m => .panic m) ∧
+    setB r i x = (match valueToIdx (.fin n) i with
+      | .ok idx =>
+          listResult2 (tupAll (elemsFrom (den r) 0 idx)) (tupAll (elemsFrom (den r) (idx + 1) (n - (idx + 1))))
+            (fun pre post => pre ++ [x] ++ post)
+      | .err m => .err m
+      | .panic m => .panic m) ∧
+    insertB r i x = (match insertIdx (.fin n) n i with
+      | .ok idx =>
+          listResult2 (tupAll (elemsFrom (den r) 0 idx)) (tupAll (elemsFrom (den r) idx (n - idx)))
+            (fun pre post => pre ++ [x] ++ post)
+      | .err m => .err m
+      | .panic m => .panic m) := by
+  have hl : r.len = .fin n := by rw [len_den r h, hn]; rfl
+  have hv : ∀ a c, a + c ≤ n → ∀ k, k < c → (den r).valid (a + k) := by
+    intro a c hac k hk; simp only [Sem.valid, optValid, hn]; omega
+  refine ⟨?_, ?_, ?_⟩
+  · simp only [popB, hl]
+    cases hi : valueToIdx (.fin n) i with
+    | err m => rfl
+    | panic m => rfl
+    | ok idx =>
+      have hlt : idx < n := valueToIdx_valid (some n) i idx hi
+      simp only []
+      rw [collectFrom_den r h idx 0 (hv 0 idx (by omega)),
+        collectFrom_den r h (n - (idx + 1)) (idx + 1) (hv (idx + 1) _ (by omega)), liftList2_eq]
+  · simp only [setB, hl]
+    cases hi : valueToIdx (.fin n) i with
+    | err m => rfl
+    | panic m => rfl
+    | ok idx =>
+      have hlt : idx < n := valueToIdx_valid (some n) i idx hi
+      simp only []
+      rw [collectFrom_den r h idx 0 (hv 0 idx (by omega)),
+        collectFrom_den r h (n - (idx + 1)) (idx + 1) (hv (idx + 1) _ (by omega)), liftList2_eq]
+  · simp only [insertB, hl]
+    cases hi : insertIdx (.fin n) n i with
+    | err m => rfl
+    | panic m => rfl
+    | ok idx =>
+      have hle : idx ≤ n := by
+        unfold insertIdx at hi
+        split at hi
+        · injection hi with hi; omega
+        · have := valueToIdx_valid (some n) i idx hi; simp only [optValid] at this; omega
+      simp only []
+      rw [collectFrom_den r h idx 0 (hv 0 idx (by omega)),
+        collectFrom_den r h (n - idx) idx (hv idx _ (by omega)), liftList2_eq]
+
+/-- after the fix `insert` at index `len` appends (also into an empty sequence); `len + 1` and `-len - 1` are
+error values -/
+theorem insert_index (n : Nat) (hn : n < USIZE) :
+    insertIdx (.fin n) n n = .ok n ∧ insertIdx (.fin n) n (n + 1) = .err "index out of bounds" ∧
+    insertIdx (.fin n) n (-(n : Int) - 1) = .err "index too low" := by
+  refine ⟨by simp [insertIdx], ?_, ?_⟩
+  · have : ¬ ((n : Int) + 1 = n) := by omega
+    simp only [insertIdx, this, if_false]
+    rw [idx_norm_finite n _ hn]; repeat' split
+    all_goals first | rfl | (exfalso; omega)
+  · have : ¬ (-(n : Int) - 1 = n) := by omega
+    simp only [insertIdx, this, if_false]
+    rw [idx_norm_finite n _ hn]; repeat' split
+    all_goals first | rfl | (exfalso; omega)
+
+
 end XrayModel.C15
